@@ -54,3 +54,16 @@ func TestCompleteMultipartOntoHeldObjectRefused(t *testing.T) {
 		t.Fatalf("CompleteMultipartUpload onto an object under legal hold answered %d and the content is now %d bytes", c.Status, len(got.Body))
 	}
 }
+
+// A lock configuration document without <ObjectLockEnabled> was stored as "not enabled": from then on no lock of any
+// object in the bucket is looked at, and the held object can be deleted. (And no further configuration is accepted.)
+func TestLockConfigurationWithoutEnabledDoesNotSwitchLockingOff(t *testing.T) {
+	g := setup(t)
+	r := g.Put(g.RootC, "/lockbkt?object-lock", []byte(`<ObjectLockConfiguration xmlns="http://s3.amazonaws.com/doc/2006-03-01/"></ObjectLockConfiguration>`), nil)
+	d := g.Delete(g.RootC, "/lockbkt/held", nil)
+	got := g.Get(g.RootC, "/lockbkt/held", nil)
+	if d.Status/100 == 2 || string(got.Body) != "protected content" {
+		t.Fatalf("PUT ?object-lock without ObjectLockEnabled answered %d; DELETE of the object under legal hold then answered %d; GET answers %d %q",
+			r.Status, d.Status, got.Status, got.Body)
+	}
+}
